@@ -169,6 +169,7 @@ Section Correct.
   Notation mn_of := (mn_of content out dg map_needed).
   Notation dependents_in := (dependents_in content deps).
   Notation new_manifest := (new_manifest content hash out dg deps cacheable).
+  Notation kept_dependents := (kept_dependents content deps).
   Notation file_diags := (file_diags content out dg dg_eqb diags rederived).
 
   (* ---------------- hypotheses about the uninterpreted part, each named ---------------- *)
@@ -202,9 +203,15 @@ Section Correct.
 
   (* ---------------- invariant ---------------- *)
 
-  Definition manifest_of (P : proj) (c : config) : manifest :=
-    map (fun fc => (fst fc, mkEntry (hash (snd fc)) (cacheable P (secs_of c) (fst fc))
-                                    (dependents_in P (fst fc)))) P.
+  (* the saved manifest describes project P0 under configuration c0: per file its hash, whether a
+     fragment was captured, and AT LEAST its dependents (a kept entry may carry extra ones) *)
+  Definition man_rel (P0 : proj) (c0 : config) (m : manifest) : Prop :=
+    forall f, match lookup P0 f with
+              | Some x => exists e, lookup m f = Some e /\ e_hash e = hash x
+                                    /\ e_frag e = cacheable P0 (secs_of c0) f
+                                    /\ incl (dependents_in P0 f) (e_dependents e)
+              | None => lookup m f = None
+              end.
 
   (* not dst_is_stale *)
   Definition fresh_out (mn : bool) (s : state) (g : file) : Prop :=
@@ -215,7 +222,7 @@ Section Correct.
     forall g, g = f \/ In g (deps P f) -> fresh_out mn s g.
 
   Definition snap_ok (s : state) (k : list N) (m : manifest) (P0 : proj) (c0 : config) : Prop :=
-    k = key_of c0 /\ m = manifest_of P0 c0 /\ NoDup (dom P0)
+    k = key_of c0 /\ man_rel P0 c0 m /\ NoDup (dom P0)
     /\ (forall f, In f (dom P0) -> has_error P0 (secs_of c0) f = false)
     /\ (forall f, In f (dom P0) -> s_cdiag _ _ _ s f = diags P0 (secs_of c0) f)
     /\ (forall f, In f (dom P0) -> closure_fresh (map_needed (secs_of c0)) s P0 f ->
@@ -299,17 +306,6 @@ Section Correct.
     unfold restores. simpl. rewrite andb_false_r. reflexivity.
   Qed.
 
-  Lemma lookup_manifest_of : forall P c f,
-    lookup (manifest_of P c) f =
-    match lookup P f with
-    | Some x => Some (mkEntry (hash x) (cacheable P (secs_of c) f) (dependents_in P f))
-    | None => None end.
-  Proof.
-    intros P c f. unfold manifest_of.
-    rewrite (lookup_map_entry content entry (fun fc => mkEntry (hash (snd fc)) (cacheable P (secs_of c) (fst fc)) (dependents_in P (fst fc))) P f).
-    destruct (lookup P f); reflexivity.
-  Qed.
-
   Lemma in_dependents_in : forall P f h, In h (dom P) -> In f (deps P h) -> In h (dependents_in P f).
   Proof.
     intros P f h Hh Hf. unfold dependents_in, IncrModel.dependents_in. apply filter_In. split; [exact Hh | apply mem_In; exact Hf].
@@ -329,20 +325,22 @@ Section Correct.
   Qed.
 
   Lemma hit_facts : forall co mn s P0 c0 f c,
-    eff_manifest s = manifest_of P0 c0 ->
+    man_rel P0 c0 (eff_manifest s) ->
     hit co mn (eff_manifest s) (path_of s (f, c)) = true ->
     lookup P0 f = Some c /\ (co = true -> fresh_out mn s f).
   Proof.
-    intros co mn s P0 c0 f c He H. unfold hit in H. simpl in H. rewrite He in H. rewrite lookup_manifest_of in H.
-    destruct (lookup P0 f) as [x|] eqn:L; [|discriminate]. simpl in H.
-    apply andb_true_iff in H. destruct H as [H H3]. apply andb_true_iff in H. destruct H as [H1 _].
-    apply N.eqb_eq in H1. apply hash_inj in H1. subst x. split; [reflexivity|].
-    intros ->. simpl in H3. apply negb_true_iff in H3. eapply stale_fresh. exact H3.
+    intros co mn s P0 c0 f c He H. unfold hit in H. simpl in H. specialize (He f).
+    destruct (lookup P0 f) as [x|] eqn:L.
+    - destruct He as [e [Hl [Hh _]]]. rewrite Hl in H.
+      apply andb_true_iff in H. destruct H as [H H3]. apply andb_true_iff in H. destruct H as [H1 _].
+      apply N.eqb_eq in H1. rewrite Hh in H1. apply hash_inj in H1. subst x. split; [reflexivity|].
+      intros ->. simpl in H3. apply negb_true_iff in H3. eapply stale_fresh. exact H3.
+    - rewrite He in H. discriminate.
   Qed.
 
   Lemma restored_unchanged : forall co s P0 c0 f,
     NoDup (dom (s_src _ _ _ s)) -> NoDup (dom P0) ->
-    eff_manifest s = manifest_of P0 c0 ->
+    man_rel P0 c0 (eff_manifest s) ->
     (forall h, In h (dom P0) -> has_error P0 (secs_of c0) h = false) ->
     (forall g, In g (deps P0 f) -> In g (dom (s_src _ _ _ s))) ->
     In f (dom (s_src _ _ _ s)) -> ~ In f (analysed co s) ->
@@ -367,11 +365,12 @@ Section Correct.
       - destruct (hit_facts _ _ _ _ _ _ _ He Hh) as [Hlg0 Hfrg]. split; [congruence | exact Hfrg].
       - exfalso. apply Hnd'. simpl.
         destruct (dom_lookup _ _ _ Hg0) as [x Hx].
+        pose proof (He g) as Heg. rewrite Hx in Heg. destruct Heg as [e [Hle [_ [_ Hinc]]]].
         eapply in_dependents_of with (g := g).
         + unfold base_miss. apply in_map_iff. exists (path_of s (g, cg)). split; [reflexivity|].
           apply filter_In. split; [exact Hgin | rewrite Hh; reflexivity].
-        + rewrite He. rewrite lookup_manifest_of. rewrite Hx. reflexivity.
-        + simpl. apply in_dependents_in; assumption. }
+        + exact Hle.
+        + apply Hinc. apply in_dependents_in; assumption. }
     split; [exact Hf0|]. split.
     - intros g [->|Hg]; [congruence | apply Hdep; exact Hg].
     - intros Hco g [->|Hg]; [apply Hfr; exact Hco | apply Hdep; [exact Hg | exact Hco]].
@@ -381,7 +380,7 @@ Section Correct.
   Lemma eff_cases : forall s, Inv s ->
     eff_manifest s = [] \/
     exists P0 c0 k m, s_man _ _ _ s = Some (k, m) /\ s_snap _ _ _ s = Some (P0, c0) /\ snap_ok s k m P0 c0
-                      /\ eff_manifest s = manifest_of P0 c0 /\ secs_of c0 = secs_of (s_cfg _ _ _ s).
+                      /\ man_rel P0 c0 (eff_manifest s) /\ secs_of c0 = secs_of (s_cfg _ _ _ s).
   Proof.
     intros s [_ [_ Hi]]. unfold eff_manifest, IncrModel.eff_manifest.
     destruct (s_man _ _ _ s) as [[k m]|] eqn:Hm; [|left; reflexivity].
@@ -430,9 +429,10 @@ Section Correct.
     fold sec in Hsec. rewrite Hsec in *. split; [|split; [|split]].
     - rewrite Lh. apply Herr. exact Hf0.
     - rewrite Ldi. apply Hcd. exact Hf0.
-    - rewrite He. rewrite lookup_manifest_of. rewrite Hsec. pose proof (Hag f (or_introl eq_refl)) as Hlf. fold P in Hlf.
-      destruct (dom_lookup _ _ _ Hf0) as [x Hx]. rewrite Hx. eexists. split; [reflexivity|]. simpl.
-      rewrite <- Hlf, Hx. split; [reflexivity | symmetry; exact Lc].
+    - pose proof (Hag f (or_introl eq_refl)) as Hlf. fold P in Hlf.
+      destruct (dom_lookup _ _ _ Hf0) as [x Hx]. pose proof (He f) as Hef. rewrite Hx in Hef.
+      destruct Hef as [e [Hle [Hh [Hfrg _]]]]. exists e. split; [exact Hle|].
+      rewrite <- Hlf, Hx. split; [exact Hh|]. rewrite Hfrg. rewrite Hsec. symmetry. exact Lc.
     - intros Hco. specialize (Hfr Hco). split; [exact Hfr|]. rewrite Le. apply Hout; [exact Hf0|].
       unfold mn_of, IncrModel.mn_of in Hfr. fold sec in Hfr. exact Hfr.
   Qed.
@@ -526,17 +526,22 @@ Section Correct.
 
   (* ---------------- the invariant is preserved ---------------- *)
 
-  Lemma new_manifest_is_manifest_of : forall co s, Inv s -> deps_present co s ->
-    new_manifest s (analysed co s) = manifest_of (s_src _ _ _ s) (s_cfg _ _ _ s).
+  Lemma new_manifest_rel : forall co s, Inv s -> deps_present co s ->
+    man_rel (s_src _ _ _ s) (s_cfg _ _ _ s) (new_manifest s (analysed co s)).
   Proof.
-    intros co s HI Hdp. unfold new_manifest, IncrModel.new_manifest, manifest_of. apply map_ext_in.
-    intros [f c] Hin. unfold new_entry. simpl.
-    destruct (mem f (analysed co s)) eqn:Em; [reflexivity|].
-    apply mem_false in Em.
-    assert (Hd : In f (dom (s_src _ _ _ s))) by (apply (in_map fst) in Hin; exact Hin).
-    destruct (restored_sem co s f HI Hdp Hd Em) as [P0 [c0 [_ [_ [_ [_ [_ [_ [[e [Hl [Hh Hfr]]] _]]]]]]]]].
-    rewrite Hl. destruct HI as [Hnd _].
-    rewrite (lookup_NoDup _ _ _ _ Hnd Hin) in Hh. rewrite Hh, Hfr. reflexivity.
+    intros co s HI Hdp f. unfold new_manifest, IncrModel.new_manifest.
+    rewrite (lookup_map_entry content entry (new_entry content hash out dg deps cacheable s (analysed co s)) (s_src _ _ _ s) f).
+    destruct (lookup (s_src _ _ _ s) f) as [x|] eqn:L; [|reflexivity].
+    eexists. split; [reflexivity|]. unfold new_entry. simpl.
+    destruct (mem f (analysed co s)) eqn:Em.
+    - simpl. repeat split. apply incl_refl.
+    - apply mem_false in Em.
+      assert (Hd : In f (dom (s_src _ _ _ s))) by (eapply lookup_some_dom; exact L).
+      destruct (restored_sem co s f HI Hdp Hd Em) as [P0 [c0 [_ [_ [_ [_ [_ [_ [[e [Hl [Hh Hfr]]] _]]]]]]]]].
+      rewrite Hl. rewrite L in Hh. simpl. split; [exact Hh|]. split; [exact Hfr|].
+      unfold kept_dependents. destruct (dependents_in (s_src _ _ _ s) f) eqn:Ed.
+      + intros y [].
+      + apply incl_refl.
   Qed.
 
   Lemma no_error_all : forall co s, Inv s -> deps_present co s ->
@@ -558,7 +563,7 @@ Section Correct.
     destruct (existsb _ (analysed true s)) eqn:Eerr; [exact HI|].
     simpl. split; [exact Hnd|]. split; [intros f; simpl; specialize (Htime f); lia|].
     simpl. unfold snap_ok. simpl.
-    split; [reflexivity|]. split; [apply (new_manifest_is_manifest_of true); assumption|].
+    split; [reflexivity|]. split; [apply (new_manifest_rel true); assumption|].
     split; [exact Hnd|]. split; [apply (no_error_all true); assumption|]. split.
     - intros f Hf. destruct (mem f (analysed true s)) eqn:Em; [reflexivity|].
       apply mem_false in Em.
@@ -577,7 +582,7 @@ Section Correct.
     destruct (existsb _ (analysed false s)) eqn:Eerr; [exact HI|].
     simpl. split; [exact Hnd|]. split; [intros f; simpl; specialize (Htime f); lia|].
     simpl. unfold snap_ok. simpl.
-    split; [reflexivity|]. split; [apply (new_manifest_is_manifest_of false); assumption|].
+    split; [reflexivity|]. split; [apply (new_manifest_rel false); assumption|].
     split; [exact Hnd|]. split; [apply (no_error_all false); assumption|]. split.
     - intros f Hf. destruct (mem f (analysed false s)) eqn:Em; [reflexivity|].
       apply mem_false in Em.
